@@ -31,7 +31,8 @@ def main():
                     shutil.copy(os.path.join(src, f), os.path.join(wt, demo_rel))
                 else:
                     shutil.copy(os.path.join(src, f), wt)
-        demo_cmd = demo_cmd.replace(f"/tmp/mut/{meta['property']}", wt).replace(f"/tmp/mutc/{meta['property']}", wt).replace(f"/tmp/mutd/{meta['property']}", wt)
+        import re as _re
+        demo_cmd = _re.sub(r"/tmp/mut[a-z]?/[A-Za-z0-9]+", wt, demo_cmd)
         import shlex
         demo_cmd = "timeout 900 bash -c " + shlex.quote(demo_cmd)
         rc0, out0 = run(demo_cmd, wt, env)
